@@ -282,7 +282,7 @@ def strategy(tier):
 
 
 def budget(tier):
-    return 60 if tier == "quick" else 2500
+    return 150 if tier == "quick" else 2500
 
 
 def check(case) -> Result:
